@@ -3,6 +3,7 @@
 package checks
 
 import (
+	"strings"
 	"bytes"
 	"encoding/hex"
 	"fmt"
@@ -301,6 +302,7 @@ func C11(e *Env) {
 	})
 	_ = judged
 	_ = unjudged
+	c11Histories(e, base, addr)
 	run.Exhaustive = true
 	CrashCheck(e, p, "c11 worker", nil)
 	run.Assume("not judged (statement silent): malformed key files, file length inside the watermark area, key applies to a table with single-sector plain regions; with key and watermark both present the 256-byte area is don't-care")
@@ -405,4 +407,118 @@ func c11BuildSpecial(root string, l c11Layout) string {
 		return "/PS3ISO/game.iso"
 	}
 	panic("unknown special " + l.Special)
+}
+
+
+// c11Histories: "when a file is opened" — the decision is taken at every open, from the layout as it is
+// then. One long-lived FS object (as the server has) and the running server open the same path again
+// after the key files around it changed: a key appears beside an image that used the REDKEY one (the
+// image re-encrypted with it: adjacent wins), a key is replaced, a key goes away (pass-through), a key
+// appears where there was none. Every stage is judged by the same decision table as the product.
+func c11Histories(e *Env, base, addr string) {
+	run := e.Run
+	hroot := filepath.Join(base, "H")
+	must(os.MkdirAll(hroot, 0o755))
+	fsys := &rfs.FS{Fs: afero.NewBasePathFs(afero.NewOsFs(), hroot)}
+	type stage struct{ Key, WM string }
+	hist := [][]stage{
+		{{"redkey", "none"}, {"both", "none"}, {"redkey", "none"}, {"none", "none"}},
+		{{"adjacent", "none"}, {"none", "none"}, {"adjacent", "none"}},
+		{{"none", "none"}, {"adjacent", "none"}, {"redkey", "none"}},
+		{{"adjacent", "none"}, {"adjacent*", "none"}, {"both", "none"}},
+		{{"redkey", "enc"}, {"none", "enc"}, {"adjacent", "enc"}, {"none", "none"}},
+		{{"none", "enc"}, {"none", "dec"}, {"none", "none"}, {"none", "enc"}},
+		{{"both", "none"}, {"malformed+redkey", "none"}, {"redkey", "none"}},
+	}
+	for hi, h := range hist {
+		for _, nest := range []string{"direct", "nested"} {
+			dirName := []string{"PS3ISO", "ps3iso"}[hi%2]
+			for si, st := range h {
+				l := c11Layout{Dir: dirName, Ext: ".iso", Nest: nest, Key: strings.TrimSuffix(st.Key, "*"), WM: st.WM, Len: "multi", ID: 5*(hi*2+len(nest)%2) + 3}
+				if strings.HasSuffix(st.Key, "*") {
+					l.ID += 100000 // same base name (ID mod 10), different key material and content
+				}
+				sub := ""
+				if nest == "nested" {
+					sub = "sub"
+				}
+				root := filepath.Join(hroot, fmt.Sprintf("h%d%s", hi, nest))
+				os.Remove(filepath.Join(root, l.Dir, sub, l.base()+".dkey"))
+				os.Remove(filepath.Join(root, "REDKEY", sub, l.base()+".dkey"))
+				rel := c11Build(root, l)
+				osPath := filepath.Join(root, rel)
+				alts := decide(root, osPath)
+				run.Eval(1)
+				if len(alts) == 0 {
+					run.Count("history_stages_not_judged", 1)
+					continue
+				}
+				wit := map[string]any{"history": h, "stage": si, "layout": l, "path": rel}
+				feature := fmt.Sprintf("history:%s->%s", func() string {
+					if si == 0 {
+						return "start"
+					}
+					return h[si-1].Key + "/" + h[si-1].WM
+				}(), st.Key+"/"+st.WM)
+				// library: the long-lived FS object
+				var got []byte
+				var openErr error
+				func() {
+					defer func() {
+						if p := recover(); p != nil {
+							openErr = fmt.Errorf("panic: %v", p)
+						}
+					}()
+					f, err := fsys.Open(filepath.Join("/", fmt.Sprintf("h%d%s", hi, nest), rel))
+					if err != nil {
+						openErr = err
+						return
+					}
+					defer f.Close()
+					got, openErr = io.ReadAll(f)
+				}()
+				ok, why := false, ""
+				for _, a := range alts {
+					switch {
+					case a.fail && openErr != nil:
+						ok = true
+					case a.fail:
+						why = "open must fail (" + a.kind + ") but succeeded"
+					case openErr != nil:
+						why = fmt.Sprintf("open/read failed: %v (selected: %s)", openErr, a.kind)
+					default:
+						if d := diffWithDC(got, a.bytes, a.dc, 0); d != "" {
+							why = fmt.Sprintf("selected transformation %s: %s", a.kind, d)
+						} else {
+							ok = true
+						}
+					}
+					if ok {
+						run.Sig("history %s %s -> %s", nest, feature, a.kind)
+						break
+					}
+				}
+				run.Count("history_stages_judged", 1)
+				if !ok {
+					run.Violate("wrong-transformation", feature, fmt.Sprintf("[stage %d of %v, %s, long-lived FS object] %s", si, h, l, why), wit)
+				}
+				// the running server
+				if len(alts) == 1 {
+					w := &model.World{Root: base, Views: FullViews, Probe: func() error { return host.Probe(addr) }}
+					full := "/" + filepath.Join("H", fmt.Sprintf("h%d%s", hi, nest), rel)
+					reqs := []wire.Req{wire.P(wire.OpOpen, full), wire.Read(1<<20, 0), wire.Read(0x100, 0xF70)}
+					if !alts[0].fail {
+						reqs = append(reqs, wire.Crit(uint32(len(alts[0].bytes)), 0))
+					}
+					res := RunLockstep(addr, w, reqs, e.Watchdog, 0, false)
+					run.Count("history_stages_through_network", 1)
+					if res.Fail != nil {
+						wit["requests"] = reqStrings(reqs)
+						wit["transcript"] = tailStr(res.Log, 10)
+						judgeModelFail(e, res.Fail, reqs, res.FailAt, "net-", feature, fmt.Sprintf("[stage %d of %v, %s] %s", si, h, l, res.Fail.Detail), wit)
+					}
+				}
+			}
+		}
+	}
 }
